@@ -72,7 +72,8 @@ class Run:
                 allp = json.load(f)
         except Exception:
             allp = {}
-        allp[self.pid] = {o.name: {"kind": o.kind, "label": o.meta.get("label")} for o in self.sink.obls if o.status == "discharged"}
+        allp[self.pid] = {o.name: dict({"kind": o.kind, "label": o.meta.get("label")}, **({"group": o.meta["pygroup"]} if o.meta.get("pygroup") else {}))
+                          for o in self.sink.obls if o.status == "discharged"}
         with open(p, "w") as f:
             json.dump(allp, f, indent=0, sort_keys=True)
 
@@ -147,12 +148,16 @@ class Run:
         the error is deferred (exit 3 unless another contract of the property reports a violation)."""
         n0 = len(self.sink.obls)
         nf = len(self.functions)
+        group = "%s:%s" % (file, func)
         try:
             build()
+            for ob in self.sink.obls[n0:]:
+                ob.meta["pygroup"] = group       # recorded in the lock: obligations that disappear together with this contract
             return
         except CheckerError as e:
             del self.sink.obls[n0:]
             del self.functions[nf:]
+            self.__dict__.setdefault("gone_groups", set()).add(group)
             r = replay(None)
             if not r.get("reproduced"):
                 import types
@@ -296,6 +301,7 @@ class Run:
         for (c_, e_) in getattr(self, "deferred_errors", []):
             lines.append("NOTE: contract of %s%s could not be applied to the current text: %s" % (c_.func, c_.tag or "", str(e_)[:160]))
         missing = [n for n in missing if not any(n.startswith(g + ":") for g in gone)]
+        missing = [n for n in missing if self.lock[n].get("group") not in getattr(self, "gone_groups", set())]
         if missing:
             raise CheckerError("obligations in the lock file are no longer generated (renamed or deleted code?): %s" % missing[:5])
         rep_dir = os.path.join(OUT, "replays", self.pid)
